@@ -168,6 +168,9 @@ class ProgGen(object):
         if r.random() < o.get("p_reserved_tag", 0.0):
             # documented special placeholders in outline tags (rendered per row)
             extra.append(r.choice(["r<row.index>", "r<examples.index>", "q<row.id>"]))
+        if r.random() < o.get("p_unknown_param_tag", 0.15):
+            # a tag whose placeholder is not a column of (all) the examples tables: dropped for those rows -- the other tags stay
+            extra.append(r.choice(["u.<nosuch>", "<nosuch>.<t>", "req.<req>"]))
         n = r.randint(1, o["max_steps"])
         # steps: placeholders <x> make per-row final texts
         steps = self.steps(n, "x", values or ["none"])
